@@ -151,61 +151,11 @@ def to_schedule(idx, b, rng, mode="ws"):
     if mode == "sse":
         proto = rng.choice(["post", "get"])
         variant = rng.choice(["endpoint", "hdr"])
-    return {"id": "%s%d-%06d" % (mode, n, idx), "mode": mode, "proto": proto, "variant": variant,
+    # every fourth schedule goes through the data-source wrapper (graphql_subscription_client.go); it has no idle timeout
+    level = "ds" if b["idle"] == "zero" and rng.random() < 0.25 else "client"
+    return {"id": "%s%d-%06d" % (mode, n, idx), "mode": mode, "level": level, "proto": proto, "variant": variant,
             "idle_ms": 0 if b["idle"] == "zero" else IDLE_MS, "key": b["key"], "dialler": b["dialler"],
             "steps": b["steps"], "expect": b.get("exp")}
-
-
-def sse_behaviours(rng, count):
-    """SSE has no sharing: one request per subscription.  The same kind of scripts (gate before the response,
-    frames, drop, cancel at any point) are produced here from the WS behaviours' shape: every subscriber dials."""
-    out = []
-    for i in range(count):
-        n = rng.choice([2, 3])
-        steps = []
-        called, up, term, canc = [], set(), set(), set()
-        for _ in range(rng.randint(3, 10)):
-            opts = []
-            if len(called) < n:
-                opts.append(("Call", len(called) + 1))
-            for s in called:
-                if s not in canc:
-                    opts.append(("Cancel", s))
-                if s not in up and s not in canc:
-                    opts += [("Upgrade", s), ("Reject", s)]
-                if s in up and s not in term and s not in canc:
-                    opts += [("Send-next", s), ("Send-next", s), ("Send-complete", s), ("Send-error", s), ("Close", s)]
-            for s in range(1, n + 1):
-                if s not in called and s not in canc and rng.random() < 0.05:
-                    opts.append(("Cancel", s))
-            if not opts:
-                break
-            a, s = rng.choice(opts)
-            if a == "Call":
-                called.append(s)
-                steps.append({"a": "Call", "s": s, "c": 0, "k": ""})
-            elif a == "Cancel":
-                canc.add(s)
-                steps.append({"a": "Cancel", "s": s, "c": 0, "k": ""})
-            elif a == "Upgrade":
-                up.add(s)
-                steps.append({"a": "Upgrade", "s": 0, "c": s, "k": ""})
-            elif a == "Reject":
-                term.add(s)
-                up.discard(s)
-                canc.add(s)
-                steps.append({"a": "Reject", "s": 0, "c": s, "k": ""})
-            elif a == "Close":
-                term.add(s)
-                steps.append({"a": "Close", "s": 0, "c": s, "k": ""})
-            else:
-                k = a.split("-")[1]
-                if k != "next":
-                    term.add(s)
-                steps.append({"a": "Send", "s": s, "c": s, "k": k})
-        out.append({"key": [rng.choice([1, 2]) for _ in range(n)], "idle": "zero", "steps": steps,
-                    "dialler": list(range(1, n + 1))})
-    return out
 
 
 def run_harness(ctx, binary, scheds, tag, shards):
@@ -233,9 +183,14 @@ def run_harness(ctx, binary, scheds, tag, shards):
 _FINDING_RE = re.compile(r'<<"FINDING", "([^"]*)", "([^"]*)", (\d+)>>')
 
 
+def trace_module(events_path):
+    return "Trace_SSEMux" if "-sse" in os.path.basename(events_path) else "Trace_WSMux"
+
+
 def tlc_validate(ctx, events_path):
     """One TLC run over one event file. Returns (ok, findings, failure) with failure = (line, violated|None)."""
-    r = ctx.tlc("conc", "Trace_WSMux", "Trace_WSMux.cfg", workers=1, env={"TRACE": events_path}, timeout=2400,
+    mod = trace_module(events_path)
+    r = ctx.tlc("conc", mod, mod + ".cfg", workers=1, env={"TRACE": events_path}, timeout=2400,
                 deadlock=False, count=False, tag="trace-validation", heap="3g")
     findings = set(_FINDING_RE.findall(r.out))
     if r.ok:
@@ -313,7 +268,7 @@ def report(ctx, binary, sched_by_id, results_by_id, findings, rejected):
             s2 = dict(sched)
             s2["id"] = tid + "-retry"
             s2["slack_ms"] = 1000
-            files, _ = run_harness(ctx, binary, [s2], "retry-%s" % tid, 1)
+            files, _ = run_harness(ctx, binary, [s2], "retry-%s-%s" % (tid, sched.get("mode", "ws")), 1)
             a, _, rej2 = validate_file(ctx, files[0])
             if not rej2:
                 ctx.notes.append("schedule %s: end-of-trace judgement failed once and passed on retry with more slack" % tid)
@@ -329,7 +284,8 @@ def report(ctx, binary, sched_by_id, results_by_id, findings, rejected):
                     "to do or counts connections differently (a subscriber or frame is stalled, or a connection leaked)")
         else:
             key = "ws:nonconformance:%s" % evn.get("ev")
-            what = "recorded trace is not a behaviour of WSMux: no enabled action matches the event"
+            what = "recorded trace is not a behaviour of %s: no enabled action matches the event" % (
+                "SSEMux" if sched and sched.get("mode") == "sse" else "WSMux")
         ctx.violation(key, "%s; schedule %s, event #%d %s" % (what, tid, idx, json.dumps(evn)),
                       {"schedule": sched, "events": rows, "failing_event_index": idx, "tlc": violated or "stuck",
                        "result": results_by_id.get(tid)})
@@ -373,7 +329,7 @@ def _run(ctx):
         with open(ctx.replay_in) as f:
             case = json.load(f)["case"]
         s = case["schedule"]
-        files, results = run_harness(ctx, binary, [s], "replay", 1)
+        files, results = run_harness(ctx, binary, [s], "replay-%s" % s.get("mode", "ws"), 1)
         by_id = {s["id"]: s}
         res_by_id = {r["id"]: r for r in results}
         go_side(ctx, by_id, results)
@@ -396,7 +352,12 @@ def _run(ctx):
         jobs["neg-" + inv] = pool.submit(mc, ctx, "neg-" + inv, 2, 2, 1, 2, False, [inv], count=False, workers=2, timeout=600)
     jobs["gen2"] = pool.submit(ctx.tlc, "conc", "Gen_WSMux", "Gen_WSMux_2.cfg", timeout=1200, deadlock=False, workers=4, tag="gen-2")
     jobs["gen3"] = pool.submit(ctx.tlc, "conc", "Gen_WSMux", "Gen_WSMux_3.cfg", timeout=1700, deadlock=False, workers=1,
-                               simulate=1500 if quick else 60000, depth=120, seed=ctx.seed, tag="gen-3-simulate")
+                               simulate=1200 if quick else 60000, depth=120, seed=ctx.seed, tag="gen-3-simulate")
+    jobs["mcsse"] = pool.submit(ctx.tlc, "conc", "MC_SSEMux", "MC_SSEMux_2.cfg", timeout=900, deadlock=False, workers=2, tag="mc-sse-2")
+    jobs["gensse"] = pool.submit(ctx.tlc, "conc", "Gen_SSEMux", "Gen_SSEMux_2.cfg", timeout=900, deadlock=False, workers=2, tag="gen-sse-2")
+    if not quick:
+        jobs["gensse3"] = pool.submit(ctx.tlc, "conc", "Gen_SSEMux", "Gen_SSEMux_3.cfg", timeout=1700, deadlock=False, workers=1,
+                                      simulate=8000, depth=80, seed=ctx.seed, tag="gen-sse-3-simulate")
     if not quick:
         jobs["sim3"] = pool.submit(ctx.tlc, "conc", "MC_WSMux", "MC_WSMux_3_sim.cfg", timeout=1700, deadlock=False, workers=4,
                                    simulate=150000, depth=80, seed=ctx.seed, tag="mc-3-simulate")
@@ -418,12 +379,29 @@ def _run(ctx):
     ctx.log("generated %d distinct behaviours (%d interesting: >= 2 subscribers of one key + a cancel/frame/fault); %d chosen "
             "covering %d local patterns" % (len(beh), n_int, len(chosen), npat))
     scheds = [to_schedule(i, b, rng) for i, b in enumerate(chosen)]
-    sse = []  # [to_schedule(i, b, rng, mode="sse") for i, b in enumerate(sse_behaviours(rng, 40 if quick else 1500))]
+    gs = [jobs["gensse"].result()] + ([jobs["gensse3"].result()] if not quick else [])
+    usse = {}
+    for g in gs:
+        if not g.ok:
+            print(g.out[-3000:])
+            raise lib.Inconclusive("SSE generator run failed: %s" % g.error)
+        for b in g.printed:
+            usse.setdefault(lib.sha([len(b["key"]), b["steps"]]), b)
+    bsse = sorted(usse.values(), key=lambda b: lib.sha(b))
+    rng.shuffle(bsse)
+    csse, npat_sse = select(bsse, 80 if quick else 3000, rng)
+    for b in csse:
+        b["key"] = [rng.choice([1, 2]) for _ in b["key"]]  # SSE never shares: the option tuple only selects endpoint / headers
+    sse = [to_schedule(i, b, rng, mode="sse") for i, b in enumerate(csse)]
+    ctx.log("SSE: %d distinct behaviours, %d chosen covering %d local patterns" % (len(bsse), len(sse), npat_sse))
     allsched = scheds + sse
     by_id = {s["id"]: s for s in allsched}
 
     # ---- 3. replay on the real client -----------------------------------------------------------------
-    files, results = run_harness(ctx, binary, allsched, "all", 6 if quick else 8)
+    files, results = run_harness(ctx, binary, scheds, "all-ws", 6 if quick else 8)
+    f2, r2 = run_harness(ctx, binary, sse, "all-sse", 2 if quick else 4)
+    files += f2
+    results += r2
     res_by_id = {r["id"]: r for r in results}
     unreal = go_side(ctx, by_id, results)
 
@@ -435,6 +413,9 @@ def _run(ctx):
     for name, j in jobs.items():
         if name.startswith("gen"):
             continue
+        if name == "mcsse" and not j.result().ok:
+            print(j.result().out[-3000:])
+            raise lib.Inconclusive("TLC did not pass on SSEMux (%s) - model-level problem" % j.result().error)
         r = j.result()
         if name.startswith("neg-"):
             inv = name[4:]
@@ -447,7 +428,7 @@ def _run(ctx):
 
     if unreal:
         ctx.notes.append("%d schedules contained a step the real code could not take as scheduled (validated anyway)" % unreal)
-    distinct = {lib.sha([s["mode"], s["proto"], s["variant"], s["idle_ms"], s["key"], s["steps"]]) for s in allsched
+    distinct = {lib.sha([s["mode"], s["level"], s["proto"], s["variant"], s["idle_ms"], s["key"], s["steps"]]) for s in allsched
                 if sum(1 for x in s["steps"] if x["a"] == "Call") >= 2 and any(x["a"] != "Call" for x in s["steps"])}
     sample_ids = [s["id"] for s in (scheds[:2] + sse[:1])]
     ctx.coverage.update({
